@@ -241,6 +241,18 @@ impl<B: Backend> KeyPair<B> {
             }
         }
     }
+    pub fn local_ref(&self) -> Option<&LocalKey<B>> {
+        match self {
+            KeyPair::Local(k) => Some(k),
+            _ => None,
+        }
+    }
+    pub fn secret_ref(&self) -> Option<&SecretKey<B>> {
+        match self {
+            KeyPair::Public(sk, _) => Some(sk),
+            _ => None,
+        }
+    }
     pub fn purpose(&self) -> Purp {
         match self {
             KeyPair::Local(_) => Purp::Local,
